@@ -96,6 +96,11 @@ def _gen_ops(rng, qs, qudit, symbols=None):
             if rng.random() < 0.5:
                 co = co.with_qubit_mapping({a: b, b: a})
             ops.append(co)
+        elif r < 0.78 and not symbols:
+            # a one-qubit sub-circuit (its matrix comes from a fast path), also run backwards and with a global phase inside
+            x = rng.choice(qs)
+            sub = cirq.FrozenCircuit([cirq.T(x), cirq.H(x)] + ([cirq.global_phase_operation(1j)] if rng.random() < 0.3 else []) + ([cirq.X(x) ** 0.5] if rng.random() < 0.5 else []))
+            ops.append(cirq.CircuitOperation(sub, repetitions=rng.choice([-3, -2, -1, 2, 1])))
         else:
             q = rng.choice(qs)
             g = rng.choice([cirq.X ** e(), cirq.Y ** e(), cirq.Z ** e(), cirq.H ** e(), cirq.S, cirq.T, cirq.rx(0.7), cirq.ry(-1.1), cirq.rz(2.2), cirq.PhasedXPowGate(phase_exponent=0.3, exponent=e()),
